@@ -338,13 +338,24 @@ func (r *CRDV2) multiIP(ctx context.Context, cni *daemon.CNI, request ResourceRe
 			}
 		}
 
+		// the new sandbox supersedes a buffered teardown report. Drop it before the reply is handed
+		// over: once the caller has the reply a DEL may follow, and its report must not be erased.
+		r.lock.Lock()
+		prev, buffered := r.deletedPods[cni.PodUID]
+		delete(r.deletedPods, cni.PodUID)
+		r.lock.Unlock()
+
 		select {
 		case <-ctx.Done():
 			l.Error(ctx.Err(), "parent ctx done")
+			if buffered {
+				r.lock.Lock()
+				if _, ok := r.deletedPods[cni.PodUID]; !ok {
+					r.deletedPods[cni.PodUID] = prev
+				}
+				r.lock.Unlock()
+			}
 		case resp <- allocResp:
-			r.lock.Lock()
-			delete(r.deletedPods, cni.PodUID)
-			r.lock.Unlock()
 		}
 	}()
 
